@@ -565,6 +565,16 @@ impl Drop for TlsVal {
     }
 }
 
+/// Initialise the calling task's thread-local `k` (0: destructor touches key 1; 1: destructor
+/// yields; 2: plain). Used by the async DSL of C17.
+pub fn tls_touch(k: usize) -> bool {
+    match k % 3 {
+        0 => TLS0.try_with(|v| v.key).is_ok(),
+        1 => TLS1.try_with(|v| v.key).is_ok(),
+        _ => TLS2.try_with(|v| v.key).is_ok(),
+    }
+}
+
 /// Thread-local whose destructor synchronises unconditionally. Only the pinned witness of known
 /// finding F17 uses it (key 3).
 pub struct TlsSyncVal;
